@@ -19,6 +19,25 @@ def gen_cases(ctx, n_trees, maxdepth):
         depth = rng.randint(1, maxdepth)
         e, v = dg.gen_expr(rng, depth, names, dict(env))
         cases.append((env, e))
+    # products / quotients / sums of COMPOSITE sub-expressions over the same variables in the same and in
+    # different orders (the aligned fast path vs the re-indexing paths of every binary operator)
+    x, y, z = ("var", "x"), ("var", "y"), ("var", "z")
+    pool = [("mul", x, y), ("mul", y, x), ("add", x, y), ("add", y, x), ("sub", x, y), ("div", x, y), ("div", y, x),
+            ("mul", ("exp", x), y), ("mul", y, ("log", x)), ("add", ("mul", x, y), z), ("add", z, ("mul", y, x)),
+            ("mul", ("add", x, z), y), ("pow", ("mul", x, y), 2.0), ("mulf", ("add", y, x), 1.5), ("fsub", 2.0, ("mul", x, y)),
+            ("mul", x, x), ("add", ("mul", z, x), y), x, ("neg", ("mul", y, x)), ("fdiv", 1.0, ("add", x, y))]
+    envp = [("x", 1.3), ("y", 0.7), ("z", 2.1)]
+    for t in ("add", "sub", "mul", "div"):
+        for a in pool:
+            for b in pool:
+                if ctx.tier != "thorough" and rng.random() < 0.55:
+                    continue
+                e = (t, a, b)
+                try:
+                    dg.eval_py(e, dict(envp))
+                    cases.append((envp, e))
+                except Exception:
+                    pass
     # every single operator variant on a variable, and on (x op y), explicitly
     unary = ["neg", "negref", "exp", "log", "ncdf", "nicdf", "abs"]
     for t in unary:
